@@ -88,3 +88,83 @@ def apply(idx, k1, k2, two, kind1, kind2, s, n):
     except ParsingException:
         pass
     return True
+
+
+# ---- U1: the lexer's error reporter is total on every illegal character -------------------------------------------
+from sly.lex import Token, LexError
+
+
+def _illegal_ascii():
+    out = set()
+    for c in range(128):
+        try:
+            list(MindsDBLexer().tokenize(chr(c)))
+        except LexError:
+            out.add(chr(c))
+        except Exception:  # noqa
+            out.add(chr(c))
+    return out
+
+
+ILLEGAL_ASCII = _illegal_ascii()
+FOLD = 'ſKİı'     # non-ASCII letters that re.IGNORECASE folds onto ASCII letters (can start a keyword)
+
+
+def _is_illegal(ch):
+    if len(ch) != 1:
+        return False
+    if ord(ch) < 128:
+        return ch in ILLEGAL_ASCII
+    return not ch.isdecimal() and ch not in FOLD
+
+
+def _representatives():
+    """every illegal ASCII character + one or two code points of every Unicode general category (assigned or not)"""
+    import unicodedata
+    out = sorted(ILLEGAL_ASCII)
+    seen = {}
+    for cp in list(range(128, 0x3000)) + [0xD800, 0xDFFF, 0xE000, 0xF8FF, 0xFFFE, 0xFFFF, 0x10000, 0x1F600, 0xE0001, 0xF0000, 0x10FFFF, 0x0378]:
+        ch = chr(cp)
+        cat = unicodedata.category(ch)
+        if seen.get(cat, 0) < 2 and _is_illegal(ch):
+            seen[cat] = seen.get(cat, 0) + 1
+            out.append(ch)
+    return out
+
+
+CHARS = _representatives()
+
+
+def lexer_error_leaf(k, pre_len, post_len, nl):
+    ch = CHARS[k]
+    prefix = 'a' * pre_len
+    if nl and pre_len > 0:
+        prefix = prefix[:pre_len - 1] + '\n'
+    text = prefix + ch + 'b' * post_len
+    lx = MindsDBLexer()
+    lx.text = text
+    lx.index = len(prefix)
+    lx.lineno = 1 + prefix.count('\n')
+    t = Token()
+    t.type, t.value, t.lineno, t.index, t.end = 'ERROR', text[len(prefix):], lx.lineno, len(prefix), len(text)
+    try:
+        lx.error(t)
+    except LexError as e:
+        msg = str(e.args[0])
+        return 'Illegal character' in msg and '^' in msg
+    return False
+
+
+def lexer_error_unit(k: int, pre_len: int, post_len: int, nl: bool) -> bool:
+    """
+    pre: 0 <= k < NCHARS
+    pre: 0 <= pre_len <= 3 and 0 <= post_len <= 2
+    post: _
+    """
+    from harness.planlib import ci, cb, NoTracing
+    k, pre_len, post_len, nl = ci(k, NCHARS - 1), ci(pre_len, 3), ci(post_len, 2), cb(nl)
+    with NoTracing():
+        return lexer_error_leaf(k, pre_len, post_len, nl)
+
+
+NCHARS = len(CHARS)
